@@ -12,8 +12,8 @@ CLAIMED = {
         "denotation oracle computed from raw fields: for every content, offset, prior operation and probe element within the "
         "bound the result denotes exactly the mathematical set; decided per path by SMT, counterexamples replayed natively. "
         "Listed known findings (sequence->GenericSet fall-back, sparse Bytes) are excluded by input class and still reported.",
-        "L<=3, offset in [-2,2], probe index in [-4,6], <=1 prior operation; frozen replaced by a list model; array/dict/relation "
-        "dispatch harnesses are separate (see DESIGN.md §4 C01)"),
+        "L<=3, offset in [-2,2], probe index in [-4,6], <=1 prior operation; frozen replaced by a list model; the 8x8 set-operator "
+        "dispatch matrix and relations in every pair of column layouts (literal vs joined) are separate harnesses (DESIGN.md §4 C01)"),
     "C02": (
         "Bounded symbolic execution of every Equal and Hash implementation: symmetry/reflexivity of Equal and Equal => equal Hash "
         "(for a symbolic seed, hash primitives uninterpreted) on all pairs of an 18-kind universe, and 12 pairs of construction "
@@ -26,7 +26,9 @@ CLAIMED = {
         "Bounded symbolic execution of the real String/Bytes with/Without code (go/ssa) with real slice aliasing: for every base "
         "content, offset and operation argument within the bound, deriving two values from one parent leaves the parent and the "
         "first derivative unchanged; decided per path by SMT, counterexamples replayed natively.",
-        "L<=3, offset in [-2,2], index in [-4,6], histories of 2-3 operations; frozen modelled; Go 1.24 append growth rule"),
+        "strings/bytes: L<=3, offset in [-2,2], index in [-4,6], histories of 2-3 operations; arrays: <=3 items, offset in [-1,1], "
+        "index in [-1,4], histories of 2-3 with/without operations; relations: two joins from one join result; frozen modelled; "
+        "Go 1.24 append growth rule"),
     "C04": (
         "Bounded symbolic execution of the eight real join operators (New*Expr -> BinExpr.Eval -> Joiner -> Relation.Join / "
         "positionalRelation joins / GenericJoin / Merge) on relations over every partition shape and both column orders, against "
@@ -55,7 +57,7 @@ CLAIMED = {
         "of enumerations take another order (choice explored exhaustively within the bound). Both evaluations must fail alike "
         "and give Equal values (bit-identical floats; identical fu.Repr/String output for concrete numbers). A counterexample is "
         "confirmed natively by evaluating it in ten fresh processes (fresh hash seeds, fresh Go map orders) and comparing output.",
-        "30 programs over collections padded to 9..11 members (frozen keeps up to 8 in insertion order whatever the seed), x in "
+        "33 programs over collections padded to 9..11 members (frozen keeps up to 8 in insertion order whatever the seed), x in "
         "[-2,2] symbolic; float sum/mean with one arbitrary finite addend; at most 1 (quick) / 2 (thorough) deviating enumerations "
         "per evaluation, a deviation being any permutation of <=3 members or one transposition of more; stdlib functions, --out "
         "and import order are outside; superimposed sequence items are a listed known finding"),
@@ -64,7 +66,9 @@ CLAIMED = {
         "whose numbers come from a scope of symbolic values: let / arrow / application triples over 20 pattern shapes, 24 "
         "sugared literals against their spelled-out tuple sets (folded and unfolded), 13 implicit-binder forms against the "
         "explicit \\x form, 12 capture-avoiding substitutions, every ordered pair of binary operators against the documented "
-        "parenthesisation, 20 prefix/postfix/tail/chain programs, and 12 cond/&&/||/if programs whose unselected branch fails; "
+        "parenthesisation, 20 prefix/postfix/tail/chain programs, 12 cond/&&/||/if programs whose unselected branch fails, "
+        "-> chains mixing implicit and explicit binders against the computed number, and A && B / A || B over 9x9 operand atoms "
+        "against the operand the language definition selects; "
         "every program also in a rendering with redundant parentheses, comments and white space. Both sides must fail alike "
         "or give Equal values for every scope value in the bound; SMT-decided per path, native replay.",
         "program texts are enumerated, not symbolic (the lexer is regexp-driven); numbers x,y,z in [-2,2] and sets/tuples/arrays "
@@ -76,14 +80,17 @@ CLAIMED = {
         "definition: Bind succeeds iff the reference matches, every name is bound to the reference value, ...rest is exactly the "
         "remainder, a fallback (an outer variable) is used only for an absent component; SMT-decided per path, native replay.",
         "8 array patterns x arrays of 0..3 items, 6 tuple patterns x tuples over {x,y,z}, 4 set patterns x subsets of {0,1,2}; "
-        "dict patterns, nesting, repeated names and compilePattern (AST -> pattern) are outside the registered bound"),
+        "9 dictionary patterns x dictionaries over every subset of 3 keys and 11 nested pattern/value pairs go through the real parser "
+        "and compilePattern (in let and as function parameter); more than one optional-or-rest entry per dict pattern is rejected "
+        "by design and excluded; repeated names and cond arms are outside the registered bound"),
     "C10": (
         "Partial (operator kernel): bounded symbolic execution of the 21 binary and 6 unary operator expressions that can be built "
         "without the parser, applied to every pair of kinds of the value universe (ill-typed operands included), and of two-"
         "attribute tuple literals over the sugar attribute names with values of 5 kinds (folded and evaluated): Eval returns a "
         "value or an error, never a Go panic; hangs would exceed the executor's step budget or be reported as deadlocks. Crashes "
         "are replayed natively. Listed known findings (colliding array indices, ill-typed sugar tuples) are reported as such.",
-        "18x18 operand kinds with concrete representative numbers; 'for all byte strings offered as source' (lexer/parser/"
+        "26x26 operand kinds (the 18-kind universe plus 8 odd shapes: string-keyed dict, non-numeric @, union of kinds, nested/"
+        "sparse arrays, sparse string, native function) with concrete representative numbers; 'for all byte strings offered as source' (lexer/parser/"
         "compiler), the stdlib functions and the CLI/shell recover paths are outside; the import-cycle hang is checked under C16"),
     "C11": (
         "Narrow: two guest goroutines under the executor's cooperative scheduler (all interleavings within a context bound of 2 "
@@ -97,10 +104,12 @@ CLAIMED = {
         "Partial (string-literal codec kernel): bounded symbolic execution of the real printer (String/Bytes/Array.Format, "
         "reprString/reprStr/reprEscape) and the real literal reader syntax.parseArraiString: every string of 1..2 arbitrary "
         "Unicode scalars printed and read back gives the original, and offsets are printed as the N\\ prefix for strings, arrays "
-        "and byte arrays; SMT-decided per path, counterexamples replayed natively. Reading composite values back needs the wbnf "
-        "parser and is outside the claim.",
+        "and byte arrays; SMT-decided per path, counterexamples replayed natively. 20 composite shapes (numbers, strings with "
+        "awkward characters, offset sequences, holes, unusual attribute names, dicts, mixed sets, relations, nesting) are printed "
+        "by fu.Repr and read back by the real wbnf parser and compiler: Equal both ways and printed identically again.",
         "strings of 1..2 runes over all Unicode scalar values; offsets in [-3,3]; fmt is replaced by the executor's fmt-lite "
-        "(verbs %s %v %d %c %02x, Formatter/Stringer dispatch); numbers, nesting, attribute names and dict keys not covered"),
+        "(verbs %s %v %d %c %02x, Formatter/Stringer dispatch); composite shapes are enumerated with integers in [-2,2] that "
+        "are concretised when printed (the lexer needs concrete text); closures are not data and are outside"),
     "C13": (
         "Partial: bounded symbolic execution of the real translate.Translator.ToArrai/FromArrai pair (strict mode) on decoded "
         "documents, of FromArrai/ToArrai on every finite float64 (FP theory), and of //bits.mask / //bits.set; SMT-decided per "
@@ -114,12 +123,15 @@ CLAIMED = {
         "subject length <=4 (predicates) / <=3, pattern <=3 / <=2; alphabet {0,1,2}; strings.Index/bytes.Index and UTF-8 coding "
         "are executor intrinsics written from their definitions"),
     "C16": (
-        "Partial (import-cache kernel): the real importCache.getOrAdd under the executor's scheduler with stub add callbacks: "
-        "two concurrent importers of one key agree and import once, a failing import wakes its waiters, and a re-entrant import "
-        "(cycle of length 1 or 2) must return instead of waiting on itself (listed known finding: it hangs). Deadlocks are "
-        "confirmed natively by timeout.",
-        "2 goroutines, context bound 2; path confinement of local imports and value consistency across spellings need the "
-        "compiler/filesystem layers and are outside the registered bound"),
+        "Partial: (1) path confinement - the program //{./Q} or //{/Q} with Q a symbolic string is compiled by the real Compile -> "
+        "compilePackage -> path.Clean -> importLocalFile -> findRootFromModule -> fileValue (lexing on a concrete twin of the "
+        "same length) against a recording read-only afero.Fs: every file the compilation tries to read lies beneath the module "
+        "root (the script's directory without a module), a root import without a module fails without reading; (2) the real "
+        "importCache.getOrAdd under the executor's scheduler: two concurrent importers of one key agree and import once, a "
+        "failing import wakes its waiters, a re-entrant import (cycle of length 1 or 2) must return instead of waiting on itself "
+        "(listed known finding: it hangs; confirmed natively by timeout).",
+        "Q of 1..4 (thorough 1..6) characters over { . / space a }, script in /m/a or /m, with and without /m/go.mod; cache: 2 "
+        "goroutines, context bound 2; value consistency across spellings and external/module imports are outside"),
     "C17": (
         "Bounded exploration of client histories x interleavings of the real engine.Start actor loop (Update/Observe/cancel/"
         "Hangup/Stop, watcher.update/close) as guest goroutines under the executor's scheduler: every request returns, accepted "
